@@ -79,7 +79,8 @@ def make_sigclip(s):
     from astropy.stats import SigmaClip
     if s is None:
         return None
-    return SigmaClip(sigma=s['sigma'], maxiters=s['maxiters'], cenfunc=s['cenfunc'], stdfunc=s['stdfunc'])
+    return SigmaClip(sigma=s['sigma'], sigma_lower=s.get('sigma_lower'), sigma_upper=s.get('sigma_upper'),
+                     maxiters=s['maxiters'], cenfunc=s['cenfunc'], stdfunc=s['stdfunc'], grow=s.get('grow', False))
 
 
 def build(spec):
@@ -258,16 +259,16 @@ def gen_spec(rng, lattice=True):
         positions.append(list(p))
         kinds.append(k)
     r = rng.random()
-    if r < 0.3:
-        method, subpixels = 'center', 5
-    elif r < 0.65:
-        method, subpixels = 'subpixel', rng.choice([1, 2, 4, 8, 16] if lattice or rng.random() < 0.5 else [3, 5, 7])
-    else:
-        method, subpixels = 'exact', 5
+    # sum_method and subpixels are always crossed: subpixels is documented to matter for 'subpixel' only
+    method = 'center' if r < 0.3 else ('subpixel' if r < 0.65 else 'exact')
+    subpixels = rng.choice([1, 1, 2, 5, 32, 32] + ([4, 8, 16] if lattice or rng.random() < 0.5 else [3, 7]))
     sig = None
     if rng.random() < 0.5:
-        sig = {'sigma': rng.choice([1.0, 1.5, 2.0, 3.0]), 'maxiters': rng.choice([1, 2, 5, None]),
-               'cenfunc': rng.choice(['median', 'median', 'mean']), 'stdfunc': rng.choice(['std', 'std', 'mad_std'])}
+        sig = {'sigma': rng.choice([1.0, 1.5, 2.0, 3.0]),
+               'sigma_lower': rng.choice([None, None, 1.0, 2.5]), 'sigma_upper': rng.choice([None, None, 1.5, 3.0]),
+               'maxiters': rng.choice([1, 2, 5, None]),
+               'cenfunc': rng.choice(['median', 'median', 'mean']), 'stdfunc': rng.choice(['std', 'std', 'mad_std']),
+               'grow': rng.choice([False, False, 1, 1.5, 2])}
     r = rng.random()
     if r < 0.3:
         lb = None
@@ -600,11 +601,17 @@ def set_oracle(spec, p, data, mask):
                         not (mask is not None and mask[y, x]):
                     pts.append((y, x, data[y, x] - p.bkg))
     if pts and spec.get('sigma_clip') is not None:
-        v = np.array([t[2] for t in pts])
-        with warnings.catch_warnings():
-            warnings.simplefilter('ignore')
-            keep = ~np.ma.getmaskarray(make_sigclip(spec['sigma_clip'])(v, masked=True))
-        pts = [t for t, k in zip(pts, keep) if k]
+        if spec['sigma_clip'].get('grow'):
+            # `grow` rejects the 2-D neighbours of rejected pixels: the pixels the given clip leaves are those of
+            # the same SigmaClip applied to the 2-D masked centre-method cutout (position_info: p.clipc)
+            y0, y1, x0, x1 = p.large
+            pts = [t for t in pts if not p.clipc[t[0] - y0, t[1] - x0]]
+        else:       # which pixels are rejected depends on the values only: clip the 1-D value list
+            v = np.array([t[2] for t in pts])
+            with warnings.catch_warnings():
+                warnings.simplefilter('ignore')
+                keep = ~np.ma.getmaskarray(make_sigclip(spec['sigma_clip'])(v, masked=True))
+            pts = [t for t, k in zip(pts, keep) if k]
     if not pts:
         return pts, None
     v = np.array([t[2] for t in pts])
@@ -907,9 +914,15 @@ def classify(ctx, spec, infos, impl):
     else:
         ctx.stat('sum-weights', 'exact-lattice', len(infos))
     ctx.stat('class', spec['aper']['cls'] + ('(sky)' if spec.get('wcs') else ''))
-    ctx.stat('sum_method', spec['sum_method'] + (f"/{spec['subpixels']}" if spec['sum_method'] == 'subpixel' else ''))
-    ctx.stat('sigma_clip', 'None' if spec['sigma_clip'] is None else
-             f"{spec['sigma_clip']['cenfunc']}/{spec['sigma_clip']['stdfunc']}")
+    ctx.stat('sum_method', f"{spec['sum_method']}/subpixels={spec['subpixels']}")
+    sg = spec['sigma_clip']
+    ctx.stat('sigma_clip', 'None' if sg is None else f"{sg['cenfunc']}/{sg['stdfunc']}")
+    if sg is not None:
+        ctx.stat('sigma_clip-args', f"grow={sg.get('grow', False)}")
+        ctx.stat('sigma_clip-args', 'asymmetric' if (sg.get('sigma_lower') or sg.get('sigma_upper')) else 'symmetric')
+        ctx.stat('sigma_clip-args', f"maxiters={sg['maxiters']}")
+        if sg.get('grow') and any(p.clipc is not None and (p.clipc & ~p.m0c).any() for p in infos if p.overlap and p.bkg is not None):
+            ctx.stat('sigma_clip-args', 'grow>0-and-rejects-in-aperture')
     lb = spec['local_bkg']
     ctx.stat('local_bkg', 'None' if lb is None else ('scalar' if np.isscalar(lb) else
                                                      ('per-position' if impl is not None else 'invalid-length')))
@@ -931,7 +944,8 @@ def run(ctx):
         'random images 1..10 px a side on the 1/8 lattice (integers, dyadics, ramps, sparse, blobs, outliers, '
         'NaN/inf) x six pixel aperture classes and their sky forms through a TAN WCS x 1..4 positions '
         '(inside, edge, corner, outside, touching, pixel-corner) x mask (none / all / none set / random) x error '
-        'x sum_method (center, subpixel 1..16, exact) x sigma_clip (None or SigmaClip sigma/maxiters/cenfunc/stdfunc) '
+        'x sum_method (center, subpixel, exact) always crossed with subpixels (1, 2, 5, 32, 4/8/16 or 3/7) x sigma_clip (None or '
+        'SigmaClip sigma / sigma_lower / sigma_upper / maxiters incl. None / cenfunc / stdfunc / grow in {False, 1, 1.5, 2}) '
         'x local_bkg (None, scalar, per position, wrong length) x NaN/inf in the error map at masked / non-finite-data / zero-weight / in-set pixels; re-ordered children apstats[index list], get_ids; thorough adds arbitrary-double images for the '
         'Python oracles; non-trivial = some position has a non-empty pixel set; distinct = distinct full spec')
     ctx.assumptions += [
